@@ -1348,6 +1348,105 @@ handle_harness! {
     }
 }
 
+// ---- quick-tier slices of the C19 server-side contract (the complete versions are c19_tp_*):
+// handle_inner is called directly, the request is a client-mode packet, the parser outcome is fixed
+// per slice; lists, limiter, configured actions, require_nts, accepted versions and wire version
+// stay symbolic.
+handle_harness_one! { fam = false;
+    // a client-mode request whose NTS fields fail to decrypt: never a time builder; what is built is
+    // an NTS NAK, or a DENY exactly when the lists deny the client; no key reaches the serializer
+    fn c19_b_slice_decrypt_failure_never_time() {
+        let (mut srv, cfg) = any_server(0);
+        let ip = any_ip();
+        arm_ghosts(&srv, ip, false);
+        GEN_KIND.store(GEN_DECRYPT_ERR, Relaxed);
+        MODE.store(3, Relaxed);
+        kani::assume(VERSION.load(Relaxed) != 3);
+        let msg = [0x23u8; MSG_MAX];
+        let mut stats = RecStats;
+        let r = srv.handle_inner(ip, NtpTimestamp::from_bits(kani::any()), &msg[..], &mut stats);
+        let (answered, what) = inner_outcome(&r);
+        let keyless = matches!(&r, Ok(d) if d.cipher.is_none());
+        core::mem::forget(r);
+        let b = BUILT.load(Relaxed);
+        assert!(!built_time(), "failed NTS authentication is never answered with time");
+        assert!(b == B_NONE || b == B_NTS_NAK || b == B_DENY, "only a NAK or a plain DENY is ever built");
+        if answered {
+            assert!(what == S_NAK || what == S_DENY, "answer is an NTS NAK or a DENY");
+            assert!((what == S_DENY) == (spec_lists(&cfg) == ListVerdict::Deny), "DENY exactly when policy denies the client");
+            assert!(b == if what == S_DENY { B_DENY } else { B_NTS_NAK }, "the builder matches the announced action");
+            assert!(keyless, "no key is used for an unauthenticated request");
+            assert!(BUILD_CALLS.load(Relaxed) == 1);
+        } else {
+            assert!(b == B_NONE);
+        }
+        kani::cover!(answered && what == S_NAK, "NTS NAK");
+        kani::cover!(answered && what == S_DENY, "DENY after a decrypt failure");
+        kani::cover!(!answered && DESER_CALLS.load(Relaxed) == 1, "parsed but not answered (version not accepted)");
+        core::mem::forget(srv);
+    }
+}
+handle_harness_one! { fam = true;
+    // an authenticated client-mode request (the parser decoded a cookie): whatever is answered is
+    // protected with the cookie's server-to-client key, and a time answer is built by the NTS
+    // builder from that same cookie; never a plain builder
+    fn c19_b_slice_authenticated_answer_uses_s2c_key() {
+        let (mut srv, cfg) = any_server(0);
+        let ip = any_ip();
+        arm_ghosts(&srv, ip, true);
+        MODE.store(3, Relaxed);
+        let msg = [0x23u8; MSG_MAX];
+        let mut stats = RecStats;
+        let r = srv.handle_inner(ip, NtpTimestamp::from_bits(kani::any()), &msg[..], &mut stats);
+        let (answered, what) = inner_outcome(&r);
+        let key_tag = match &r {
+            Ok(d) => match &d.cipher {
+                Some(c) => c.key_bytes()[0],
+                None => 0,
+            },
+            Err(_) => 0,
+        };
+        let flagged = matches!(&r, Ok(d) if d.nts);
+        core::mem::forget(r);
+        let b = BUILT.load(Relaxed);
+        assert!(b == B_NONE || b == B_NTS_TIME || b == B_NTS_DENY, "only NTS builders for an authenticated request");
+        if answered {
+            assert!(key_tag == S2C_TAG, "the answer is protected with the cookie's server-to-client key");
+            assert!(flagged);
+            assert!(what == S_TIME || what == S_DENY, "never a NAK for an authenticated request");
+            if what == S_TIME {
+                assert!(b == B_NTS_TIME && BUILD_COOKIE_TAG.load(Relaxed) == S2C_TAG, "fresh cookies are made from the request's cookie");
+                assert!(spec_lists(&cfg) == ListVerdict::Pass && CACHE_RES.load(Relaxed) && version_accepted(&cfg));
+            } else {
+                assert!(b == B_NTS_DENY && spec_lists(&cfg) == ListVerdict::Deny);
+            }
+            assert!(BUILD_CALLS.load(Relaxed) == 1);
+        } else {
+            assert!(b == B_NONE);
+        }
+        kani::cover!(answered && what == S_TIME, "authenticated time answer");
+        kani::cover!(answered && what == S_DENY, "authenticated DENY");
+        core::mem::forget(srv);
+    }
+}
+handle_harness_one! { fam = false;
+    fn c19_canary_slice_decrypt_failure_never_answered() {
+        let (mut srv, _cfg) = any_server(0);
+        let ip = any_ip();
+        arm_ghosts(&srv, ip, false);
+        GEN_KIND.store(GEN_DECRYPT_ERR, Relaxed);
+        MODE.store(3, Relaxed);
+        kani::assume(VERSION.load(Relaxed) != 3);
+        let msg = [0x23u8; MSG_MAX];
+        let mut stats = RecStats;
+        let r = srv.handle_inner(ip, NtpTimestamp::from_bits(kani::any()), &msg[..], &mut stats);
+        let (answered, _what) = inner_outcome(&r);
+        core::mem::forget(r);
+        assert!(!answered, "CANARY: must be refuted");
+        core::mem::forget(srv);
+    }
+}
+
 // ================================================================ C22 (server side)
 handle_harness! {
     // handle/handle_inner/intended_action return normally for every configuration, address, parser
